@@ -192,7 +192,9 @@ func init() {
 	props["C01"] = &propDef{Level: "exploration", Rule: ruleExpl + "at least one successful mutation by a library instance", Assume: base,
 		Plan: func(t string) []PlanItem { return generalPlan(t, true) }}
 	props["C05"] = &propDef{Level: "exploration", Rule: ruleExpl + "at least two acquisition writes (two terms) in the store log", Assume: base,
-		Plan: func(t string) []PlanItem { return append(generalPlan(t, true), finePlan("C05", t)...) }}
+		Plan: func(t string) []PlanItem {
+			return append(append(generalPlan(t, true), finePlan("C05", t)...), PlanItem{scnZombieRestart("zombie-restart-same-id-K2"), 1})
+		}}
 	props["C07"] = &propDef{Level: "exploration", Rule: ruleExpl + "some instance was promoted", Assume: base,
 		Plan: func(t string) []PlanItem { return append(generalPlan(t, false), finePlan("C07", t)...) }}
 	props["C08"] = &propDef{Level: "exploration", Rule: ruleExpl + "a promotion callback ran", Assume: base,
@@ -298,6 +300,29 @@ func scnStopSlowWinddown(name string, k kfn, stop Item) *Scenario {
 	s.Insts[0].PromoteLinger = 5600 * ms
 	s.Horizon = 2*s.H + 37*ms + 5600*ms + 800*ms
 	s.DevUntil = 2*s.H + 37*ms + 400*ms
+	return s
+}
+
+// zombie-restart: the process of instance A stalls on one heartbeat (its third refresh is
+// never answered; the library gives up after its 1 s time-out), its record lapses, and a
+// second process configured with the SAME InstanceID (A restarted by its supervisor, harness
+// name A2) wins the vacant key: term 2 of "A", with a new token. The old process's next
+// refresh meets the new record - same id, different token - and has to stand down without
+// ever writing its old token again.
+func scnZombieRestart(name string) *Scenario {
+	s := K2(&Scenario{Name: name})
+	s.Insts = []InstSpec{{ID: "A"}, {ID: "A2", ConfigID: "A"}}
+	s.Script = []Item{
+		{At: 0, Actor: "lifeA", Do: "start", Inst: "A", Fixed: true},
+		{At: 2*s.H + 61*ms, Actor: "lifeA2", Do: "start", Inst: "A2", Fixed: true}}
+	s.Fault = &FaultSpec{Inst: "A", FromN: 3, Mode: "hang", Once: true}
+	s.Horizon = 3*s.H + time.Second + s.TTL + 4*s.H
+	s.LatencyBound = s.H/2 - ms
+	s.DelayMenu = []time.Duration{s.H/2 - 2*ms}
+	s.RandMenu = nil
+	s.AllowDup = false
+	s.DevFrom = 2 * s.H
+	s.MaxSteps = 3000
 	return s
 }
 
